@@ -15,7 +15,36 @@ FULL_LN = "reamber.algorithms.generate.full_ln.full_ln"
 
 
 def _fn(ctx):
-    return ctx.M.nfn(FULL_LN)        # private helpers inlined (sa/normal.py)
+    """full_ln on the normal form (private helpers inlined), the row variables named after the frame columns they receive:
+    `for a, b, c, d in g.itertuples(index=False)` unpacks positionally, so the k-th variable carries the k-th column whatever it
+    is called (sa/normal.py: with_roles)"""
+    from ..normal import with_roles
+    fn = ctx.M.nfn(FULL_LN)
+    try:
+        outer, inner = _row_loop(fn)
+    except AnalysisError:
+        return fn
+    cols = _row_columns(fn, outer)
+    if cols and isinstance(inner.target, ast.Tuple) and len(inner.target.elts) == len(cols):
+        def at(k):
+            return lambda n, v, st: isinstance(st, ast.For) and isinstance(st.iter, ast.Call) and call_name(st.iter) in ("itertuples", "iterrows") and \
+                isinstance(st.target, ast.Tuple) and k < len(st.target.elts) and isinstance(st.target.elts[k], ast.Name) and st.target.elts[k].id == n
+        fn = with_roles(fn, tuple((c, at(k)) for k, c in enumerate(cols)))
+    return fn
+
+
+def _row_columns(fn, outer) -> List[str]:
+    """columns of the per-column frame in order: the projected ones plus those added inside the per-column loop"""
+    proj = None
+    for n in walk_no_nested(fn.node):
+        if isinstance(n, ast.Subscript) and isinstance(n.value, ast.Attribute) and n.value.attr == "loc" and \
+                isinstance(n.slice, ast.Tuple) and len(n.slice.elts) == 2 and isinstance(n.slice.elts[1], ast.List):
+            proj = [e.value for e in n.slice.elts[1].elts if isinstance(e, ast.Constant)]
+    added = [n.targets[0].slice.value for n in ast.walk(outer) if isinstance(n, ast.Assign) and
+             isinstance(n.targets[0], ast.Subscript) and isinstance(n.targets[0].slice, ast.Constant) and
+             isinstance(n.targets[0].value, ast.Name) and isinstance(outer.target, ast.Tuple) and
+             n.targets[0].value.id == getattr(outer.target.elts[-1], "id", None)]
+    return (proj or []) + added if proj is not None else []
 
 
 def _row_paths(inner: ast.For):
@@ -432,7 +461,8 @@ def rule_r3(ctx) -> List[R.Inst]:
         key = f"rebuild:{slot}"
         if len(a) == 1 and isinstance(a[0].value, ast.Call) and call_name(a[0].value) == "from_dict" and \
                 unparse(a[0].value.func.value) in (f"type({p0}.{slot})", f"{p0}.{slot}.__class__") and \
-                a[0].value.args and unparse(a[0].value.args[0]) == slot:
+                a[0].value.args and isinstance(a[0].value.args[0], ast.Name) and _sinks(fn).get(a[0].value.args[0].id) == slot:
+            # (which records the list named there holds — hits without, holds with a length — is decided per path by R1)
             insts.append(R.ok(rid, key, file, a[0].lineno, idiom=f"type(m.{slot}).from_dict({slot})"))
         else:
             insts.append(R.viol(rid, key, file, (a[0] if a else fn.node).lineno,
